@@ -25,7 +25,7 @@ LEVEL = "model_checking"
 WORKERS = 8
 NUMBA_THREADS = 16
 RULE = (
-    "sweep: configs {plain, screening, adaptive, time-dependent A, callable currents, hole+terminals} x fresh processes "
+    "sweep: configs {plain, screening, adaptive, time-dependent A, callable currents, hole+terminals, four terminals with decimal currents} x fresh processes "
     "(PYTHONHASHSEED x output location) x thread counts; kernel: 8 prange kernels x tiny shapes x 2-3 virtual threads, all schedules with <= b preemptions. "
     "Non-trivial = at least two digests / schedules compared; distinct = case parameters."
 )
@@ -48,7 +48,7 @@ def floors(tier):
     return {"distinct_nontrivial": 10, "states": 100, "count:schedules": 500, "count:digests": 60}
 
 
-CONFIGS = ["plain", "screening", "adaptive", "tdep", "callable_currents", "hole_terminals"]
+CONFIGS = ["plain", "screening", "adaptive", "tdep", "callable_currents", "hole_terminals", "four_terminals"]
 KERNELS = ["A_induced", "sq2d", "sq3d", "eu2d", "eu3d", "bs1d", "bs2dz", "bs2dv"]
 
 
@@ -74,6 +74,10 @@ def run_sweep(case):
         procs = [("0", "temp"), ("1", "explicit"), ("random", "relative")]
     else:
         procs = list(itertools.product(("0", "1", "random"), ("temp", "explicit", "relative")))
+    if case["config"] == "four_terminals":
+        # this configuration targets dict / set iteration order: many hash seeds, few thread counts
+        procs = [(str(h), "explicit") for h in range(8 if quick else 24)] + [("random", "relative")]
+        threads = [1, 3]
     children = []
     base = os.getcwd()
     for i, (hs, loc) in enumerate(procs):
